@@ -81,7 +81,7 @@ class C06(object):
         rnd = random.Random(rs)
         g = np.random.default_rng(rnd.getrandbits(48))
         kern = rnd.choice(["score", "score_and_refine", "score_and_refine", "refine_assigned", "refine_assigned"])
-        a = g.uniform(3, 12, 3)
+        a = g.uniform(3, 12, 3) * rnd.choice([1, 1, 1, 8, 30])  # up to protein-sized cells (volume > 1e6 A^3)
         ubi_true = np.diag(a) @ rot(g).T
         if rnd.random() < 0.4:  # triclinic-ish + strain
             ubi_true = ubi_true @ (np.eye(3) + g.normal(0, 0.02, (3, 3)))
@@ -120,9 +120,26 @@ class C06(object):
             if sel in ("one", "two", "coplanar", "collinear", "empty"):
                 labels[:] = label if sel != "empty" else label + 1
         gv = np.ascontiguousarray(gv)
+        dyadic = sel == "normal" and kern != "refine_assigned" and rnd.random() < 0.12
+        if dyadic:
+            # exact arithmetic: UBI = 2^k * signed permutation, g on a 1/64 grid, tol^2 dyadic.  Every product and sum
+            # below is exact in binary floating point, so "error == tol^2" is a well defined input and the documented
+            # comparison (strictly below the tolerance) decides it the same way in C and in the Python reference
+            sel = "dyadic-exact-ties"
+            k2 = rnd.choice([2.0, 4.0, 8.0])
+            perm = np.eye(3)[list(g.permutation(3))] * g.choice([-1.0, 1.0], 3)[:, None]
+            ubi = k2 * perm
+            nn = rnd.choice([6, 20, 100, 400])
+            frac = g.integers(-6, 7, (nn, 3)) / 16.0          # fractional hkl parts, never +-1/2
+            hk = g.integers(-5, 6, (nn, 3)).astype(float)
+            gv = np.ascontiguousarray((hk + frac) @ np.linalg.inv(ubi).T)
+            tol = rnd.choice([1 / 8.0, 1 / 4.0, 5 / 16.0, 3 / 16.0, 1 / 2.0])
         # regenerate ties away: nudge peaks that sit on a decision boundary
         H, I, ss = hkl_errors(ubi, gv) if len(gv) else (np.zeros((3, 0)), np.zeros((3, 0)), np.zeros(0))
-        tie = (np.abs(ss - tol * tol) <= 1e-12) | (np.abs(np.abs(H - np.floor(H)) - 0.5) < 1e-9).any(axis=0)
+        if dyadic:
+            tie = (np.abs(np.abs(H - np.floor(H)) - 0.5) < 1e-9).any(axis=0)
+        else:
+            tie = (np.abs(ss - tol * tol) <= 1e-12) | (np.abs(np.abs(H - np.floor(H)) - 0.5) < 1e-9).any(axis=0)
         gv = gv[~tie]
         if labels is not None:
             labels = labels[~tie]
@@ -145,6 +162,7 @@ class C06(object):
         outs = []
         viol = None
         st0 = None
+        ss_all = hkl_errors(ubi, gv)[2] if n else np.zeros(0)
         for flip in (False, True):
             if kern == "score":
                 vals = {"ubi": ubi, "gv": gv, "tol": tol, "ng": n}
@@ -192,7 +210,7 @@ class C06(object):
             elif kern != "refine_assigned" and n:
                 npy = int((self.indexing.calc_drlv2(ubi, gv) < tol * tol).sum())
                 margin = np.min(np.abs(ss - tol * tol)) if n else 1
-                if npy != got_n and margin > 1e-9:
+                if npy != got_n and (margin > 1e-9 or desc["sel"] == "dyadic-exact-ties"):
                     viol = {"class": "count-differs-python", "key": kern + ":count-differs-python",
                             "detail": "kernel %d vs indexing.calc_drlv2 %d" % (got_n, npy)}
             if viol is None and kern != "score":
@@ -220,6 +238,7 @@ class C06(object):
         meas = enginea.run_measures(st0, cfg)
         meas["kernel"] = {kern: 1}
         meas["selection"] = {desc["sel"]: 1}
+        meas["peaks_exactly_on_the_tolerance"] = int((ss_all == tol * tol).sum())
         ret0 = outs[0] if outs else None
         dig = enginea.sha(st0["digest"], repr(ret0[0]) if ret0 else None, *([ret0[1][k] for k in sorted(ret0[1])] if ret0 else []))
         return {"digest": dig, "sig": enginea.sha(kern, ubi, gv, tol, desc["labels"], desc["label"]),
